@@ -24,7 +24,7 @@ lines += [f'| {a} | {b} | {c} |' for a, b, c in rows]
 rev = sorted(glob.glob(os.path.join(ROOT, 'seeded', 'reverts', '*.diff')))
 txt = '\n'.join(lines) + f'\n\nPre-fix states (`seeded/reverts/`, {len(rev)} patches): each was applied to /repo and the check of the ' \
     'property it belongs to reported the violation again (C10 8e05929; C08 f8b714a; C09 59d172d, 65528cd (also C01); ' \
-    'C11 f79c4bf, e3fe969; C18 7539ddc; C05 8ca7d28, 2fa358f).\n'
+    'C11 f79c4bf, e3fe969; C18 7539ddc; C05 8ca7d28, 2fa358f; C10 f3b2310; C15 d365a5e, with a real-thread demonstration `d365a5e.demo.py`).\n'
 p = os.path.join(ROOT, 'DESIGN.md')
 s = open(p).read()
 if '<!-- MATRIX -->' in s:
